@@ -192,6 +192,7 @@ def twin_of(spec, rng):
     T = rng.randint(lo - 1, hi)
     c2 = json.loads(json.dumps(c))
     mode = rng.choice(["rewrite", "remove", "both", "add"])
+    corrupt = random.Random(T * 31 + len(days)).random() < 0.3        # (second stream: the other draws stay as they were)
     for a in list(c2["market"]):
         bars = c2["market"][a]
         for d in list(bars):
@@ -203,6 +204,9 @@ def twin_of(spec, rng):
                     o, cl = bars[d]
                     lv = sr.PRICE_LEVELS if max(o, cl) <= 16000 else [x * 10 for x in range(500, 25000, 777)]
                     bars[d] = [rng.choice(lv + [0]), rng.choice(lv + [0])]
+                    if corrupt and rng.random() < 0.25:
+                        # "arbitrary other values": a literal zero or a negative price in a bar after the cut day
+                        bars[d][rng.randrange(2)] = rng.choice([sr.ZERO_LIT, -5000, -12500])
                     if "adj" in c2:
                         n, dd = rng.choice(ADJ_RATIOS)
                         c2["adj"][a][str(d)] = rng.choice([0, bars[d][1] * n // dd, bars[d][1]])   # blank / another ratio / none
@@ -636,6 +640,16 @@ def warm_digest(spec):
         for a in syms:
             for day in range(c["start"] // 1440 - 1, c["end"] // 1440 + 2):
                 for m, zone in ((870 - 60, "Europe/Berlin"), (1260 - 60, "Europe/Berlin"), (870 - 540, "Asia/Tokyo"), (1260 - 540, "Asia/Tokyo")):
+                    try:
+                        ds.get_bid(ts(day * 1440 + m).tz_convert(zone), "EQ:" + a)
+                        ds.get_ask(ts(day * 1440 + m).tz_convert(zone), "EQ:" + a)
+                    except Exception:
+                        pass
+        # ... and the session's own instants (14:30 / 21:00 UTC) WRITTEN in other zones: equal as instants - and as memo keys - to
+        # what the backtest will ask; an answer computed from the wall-clock reading would be handed to the backtest
+        for a in syms:
+            for day in range(c["start"] // 1440 - 1, c["end"] // 1440 + 2):
+                for m, zone in ((870, "Asia/Tokyo"), (1260, "America/New_York"), (870, "America/New_York"), (1260, "Europe/Berlin")):
                     try:
                         ds.get_bid(ts(day * 1440 + m).tz_convert(zone), "EQ:" + a)
                         ds.get_ask(ts(day * 1440 + m).tz_convert(zone), "EQ:" + a)
